@@ -601,7 +601,7 @@ Proof.
     unfold bal at 2. rewrite Eb. fold (bal sp (User x)). rewrite Eamt. exact Hx.
   - (* update *) unfold h_update in H. inv_ok H.
     rename a into b, a0 into amt, a1 into newp, a3 into s1.
-    rename Ha0 into Hamt, Ha3 into Hpay.
+    rename Ha0 into Hamt, Ha3 into Hpay. apply opt_amt_bridge in Hamt.
     assert (Eb : bank s' = bank s1).
     { destruct (negb (qos =? 0) || negb (coins_empty dep) || match pr with Some _ => true | None => false end);
         [destruct newp as [[raw p]|]|]; inv_ok H; subst s'; reflexivity. }
@@ -613,7 +613,7 @@ Proof.
   - (* disable *) apply Hsame; [|reflexivity]. unfold h_disable in H. inv_ok H. now subst.
   - (* enable *) unfold h_enable in H. inv_ok H.
     rename a into b, a0 into amt, a1 into md, a2 into s1.
-    rename Ha0 into Hamt, Ha2 into Hpay.
+    rename Ha0 into Hamt, Ha2 into Hpay. apply opt_amt_bridge in Hamt.
     assert (Eb : bank s' = bank s1) by (subst s'; reflexivity).
     cbn [max_debit]. unfold debit_of. cbn [signer max_debit].
     split.
